@@ -302,6 +302,10 @@ class Program:
             if head in f.nested:
                 q = f.nested[head].qname
                 break
+            li = self.local_imports(f)
+            if head in li:
+                q = li[head]
+                break
             if head in f.params or head in assigned_names(f):
                 return None
             f = f.parent
@@ -319,6 +323,27 @@ class Program:
         if rest:
             q = q + '.' + rest
         return self.canonical(q)
+
+    def local_imports(self, f):
+        """Imports executed inside function f: local name -> target."""
+        li = getattr(f, '_local_imports', None)
+        if li is not None:
+            return li
+        li = {}
+        for node in walk_local(f.node, include_root=False):
+            if isinstance(node, ast.Import):
+                for a in node.names:
+                    if a.asname:
+                        li[a.asname] = a.name
+                    else:
+                        li[a.name.split('.')[0]] = a.name.split('.')[0]
+            elif isinstance(node, ast.ImportFrom):
+                base = self._import_base(f.module, node)
+                for a in node.names:
+                    li[a.asname or a.name] = \
+                        (base + '.' + a.name) if base else a.name
+        f._local_imports = li
+        return li
 
     def resolve_expr(self, m, expr, func=None):
         return self.resolve_dotted(m, dotted(expr), func)
